@@ -854,11 +854,12 @@ class QvmCpu:
         if self.module.debug_info is None:
             self.trap(TrapCode.CANNOT_RESUME,
                       msg='Cannot resume without debug info')
-        stmt = self.module.debug_info.find_stmt(self.trapped_addr, self)
-        if stmt is None:
+        rng = self.module.debug_info.find_resume_range(
+            self.trapped_addr, self)
+        if rng is None:
             self.trap(TrapCode.CANNOT_RESUME,
                       msg=f'Could not find statement to resume at addr {self.trapped_addr:08x}.')
-        self.pc = stmt.start_offset
+        self.pc = rng[0]
         self._leave_error_handler()
 
     def _exec_errresn(self):
@@ -866,11 +867,12 @@ class QvmCpu:
         if self.module.debug_info is None:
             self.trap(TrapCode.CANNOT_RESUME,
                       msg='Cannot resume without debug info')
-        stmt = self.module.debug_info.find_stmt(self.trapped_addr, self)
-        if stmt is None:
+        rng = self.module.debug_info.find_resume_range(
+            self.trapped_addr, self)
+        if rng is None:
             self.trap(TrapCode.CANNOT_RESUME,
                       msg=f'Could not find statement to resume at addr {self.trapped_addr:08x}.')
-        self.pc = stmt.end_offset
+        self.pc = rng[1]
         self._leave_error_handler()
 
     def _leave_error_handler(self):
@@ -1241,8 +1243,16 @@ class QvmCpu:
         ref = self.cur_frame.get_cell_ref(idx)
         self.push(CellType.REFERENCE, ref)
 
+    def _handler_frame_returns(self):
+        # the error handler is module-level code: only the end of the
+        # module-level routine ends it without a RESUME. a procedure
+        # the handler calls returns normally.
+        return (self.error_handler_active and
+                self.cur_frame is not None and
+                self.cur_frame.prev_frame is None)
+
     def _exec_ret(self):
-        if self.error_handler_active:
+        if self._handler_frame_returns():
             self.trap(TrapCode.NO_RESUME)
 
         self.cur_frame.destroy()
@@ -1251,7 +1261,7 @@ class QvmCpu:
         self.pc = ret_addr
 
     def _exec_retv(self):
-        if self.error_handler_active:
+        if self._handler_frame_returns():
             self.trap(TrapCode.NO_RESUME)
 
         self.cur_frame.destroy()
